@@ -214,7 +214,8 @@ CLAIMED.update({
               "runner's attribute and direction, right before walking it; and the closures EntryTree::sort_by_attr gives to the std sorts (outlined): the "
               "node comparator is cmp_by_attr, exactly reversed under --sortr; the argument comparator is cmp_bench_arg_names, exactly reversed under --sortr; "
               "the recursion passes the same attribute and direction."),
-        note=("str::parse::<f64> is stubbed to Err (CBMC cannot take dec2flt), so float names are not covered; natural_cmp on mixed text / digit strings "
+        note=("str::parse::<f64> itself (core dec2flt) is outside CBMC's reach: it is stubbed to Err in the integer harnesses and to a two-entry table of symbolic "
+              "floats in float_arg_names_by_value (float arguments by value for every pair of f64; a NaN is ordered as text and never ties with a number); natural_cmp on mixed text / digit strings "
               "gives CBMC no answer within 25 min (experimental tier only), so tokenisation of mixed names is not covered. The leaf comparisons under "
               "EntryTree::cmp_by_attr (kind, display name, location, address) are assumed; the std sorts themselves ('sorting only permutes') are assumed. "
               "Category 'other' because the name comparators are bounded only; only cmp_by_attr and with_tie_breakers are proved."),
